@@ -1,41 +1,57 @@
 use arrow_array::*;
 use arrow_schema::{DataType, Field, Schema};
-use datafusion::prelude::SessionContext;
 use futures::TryStreamExt;
 use lance::Dataset;
+use lance_index::scalar::ScalarIndexParams;
+use lance_index::{DatasetIndexExt, IndexType};
 use std::sync::Arc;
+
+async fn q(ds: &Dataset, f: &str, idx: bool) -> Vec<i64> {
+    let mut s = ds.scan();
+    s.filter(f).unwrap();
+    s.use_scalar_index(idx);
+    let out: Vec<RecordBatch> = s.try_into_stream().await.unwrap().try_collect().await.unwrap();
+    let mut v: Vec<i64> = out.iter().flat_map(|b| b.column(0).as_any().downcast_ref::<Int64Array>().unwrap().values().to_vec()).collect();
+    v.sort();
+    v
+}
 
 #[tokio::main]
 async fn main() {
-    let schema = Arc::new(Schema::new(vec![
-        Field::new("id", DataType::Int64, false),
-        Field::new("x", DataType::UInt64, true),
-        Field::new("z", DataType::Int64, true),
-    ]));
-    let b = RecordBatch::try_new(
-        schema.clone(),
-        vec![Arc::new(Int64Array::from(vec![0, 1, 2, 3, 4])), Arc::new(UInt64Array::from(vec![None, Some(0), Some(12), Some(5), Some(1099511627776)])),
-        Arc::new(Int64Array::from(vec![None, Some(0), Some(12), Some(5), Some(1099511627776)]))],
-    )
-    .unwrap();
-    let ctx = SessionContext::new();
-    ctx.register_batch("t", b.clone()).unwrap();
-    let ds = Dataset::write(RecordBatchIterator::new(vec![Ok(b)], schema.clone()), "memory://probe_in2", None).await.unwrap();
-    for f in [
-        "(x IN (1099511627776, 12, 0)) AND (NOT ((x IN (0, 9223372036854775807)) AND (id IS NOT NULL)))",
-        "(x IN (1099511627776, 12, 0)) AND (x NOT IN (0, 9223372036854775807))",
-        "(x IN (1099511627776, 12, 0)) AND (x NOT IN (0, 7))",
-        "(z IN (1099511627776, 12, 0)) AND (z NOT IN (0, 7))",
-        "(x IN (12, 0)) AND (x <> 0)",
-        "(x IN (12, 0, 5, 6)) AND (x NOT IN (0, 1, 2, 3))",
-    ] {
-        let df = ctx.sql(&format!("SELECT id FROM t WHERE {f}")).await.unwrap().collect().await.unwrap();
-        let ids: Vec<i64> = df.iter().flat_map(|b| b.column(0).as_any().downcast_ref::<Int64Array>().unwrap().values().to_vec()).collect();
-        let mut s = ds.scan();
-        s.filter(f).unwrap();
-        let plan = s.explain_plan(false).await.unwrap();
-        let out: Vec<RecordBatch> = s.try_into_stream().await.unwrap().try_collect().await.unwrap();
-        let lids: Vec<i64> = out.iter().flat_map(|b| b.column(0).as_any().downcast_ref::<Int64Array>().unwrap().values().to_vec()).collect();
-        println!("{f}\n   datafusion-sql={ids:?} lance={lids:?}\n   {}", plan.lines().last().unwrap_or("").trim());
+    let kind = std::env::args().nth(1).unwrap_or("zonemap".into());
+    let inf = f64::INFINITY;
+    let nan = f64::NAN;
+    let vals: Vec<Option<f64>> = vec![
+        Some(1.0), Some(2.0), Some(3.0),        // zone 0
+        Some(inf), None, None,                  // zone 1
+        Some(nan), Some(5.0), None,             // zone 2
+        Some(-inf), Some(nan), Some(inf),       // zone 3
+        Some(-0.0), Some(0.0), Some(-0.0),      // zone 4
+        Some(nan), Some(nan), None,             // zone 5
+        None, None, None,                       // zone 6
+        Some(7.0),                              // zone 7 (partial)
+    ];
+    let n = vals.len();
+    let schema = Arc::new(Schema::new(vec![Field::new("id", DataType::Int64, false), Field::new("x", DataType::Float64, true), Field::new("b", DataType::Boolean, true)]));
+    let bools: Vec<Option<bool>> = (0..n).map(|i| match i % 4 { 0 => Some(true), 1 => Some(false), 2 => None, _ => Some(true) }).collect();
+    let b = RecordBatch::try_new(schema.clone(), vec![Arc::new(Int64Array::from((0..n as i64).collect::<Vec<_>>())), Arc::new(Float64Array::from(vals)), Arc::new(BooleanArray::from(bools))]).unwrap();
+    let stable = std::env::args().nth(2).map(|s| s == "stable").unwrap_or(false);
+    let p = lance::dataset::WriteParams { max_rows_per_file: 7, enable_stable_row_ids: stable, ..Default::default() };
+    let mut ds = Dataset::write(RecordBatchIterator::new(vec![Ok(b)], schema.clone()), "memory://probe_z", Some(p)).await.unwrap();
+    println!("fragments: {:?}", ds.get_fragments().iter().map(|f| (f.id(), f.metadata().physical_rows)).collect::<Vec<_>>());
+    let (it, params) = if kind == "zonemap" {
+        (IndexType::ZoneMap, ScalarIndexParams { index_type: "zonemap".into(), params: Some("{\"rows_per_zone\": 3}".into()) })
+    } else {
+        (IndexType::BloomFilter, ScalarIndexParams { index_type: "bloomfilter".into(), params: Some("{\"number_of_items\": 8, \"probability\": 0.3}".into()) })
+    };
+    ds.create_index(&["x"], it, Some("x_idx".into()), &params, true).await.unwrap();
+    if kind == "zonemap" {
+        ds.create_index(&["b"], it, Some("b_idx".into()), &params, true).await.unwrap();
+    }
+    for f in ["x >= CAST('-inf' AS DOUBLE)", "x > 6.0", "x >= 5.0", "x = CAST('inf' AS DOUBLE)", "x = CAST('NaN' AS DOUBLE)", "x = -0.0", "x = 0.0", "x <= 0.0", "x < CAST('NaN' AS DOUBLE)", "x <= CAST('inf' AS DOUBLE)", "x IS NULL", "x IN (7.0, -0.0)", "b >= false", "b = true", "b", "b = false", "b > false"] {
+        if kind != "zonemap" && f.starts_with('b') { continue; }
+        let a = q(&ds, f, true).await;
+        let c = q(&ds, f, false).await;
+        println!("{f:32} {} index={a:?} noindex={c:?}", if a == c { "ok  " } else { "DIFF" });
     }
 }
